@@ -149,6 +149,10 @@ type Interp struct {
 	side     map[string]Value
 	onceDone map[*Value]bool
 	inInit   int
+	curRange      *ssa.Range
+	permSite      int
+	permInstances int
+	rangeSites    map[*ssa.Range]int
 	notDir   bool
 	ptrIDs   map[*Value]int
 	reggens  map[*Value]*reggen.Generator
@@ -254,6 +258,7 @@ func NewInterp(w *World, cfg *Config, inputs map[string]uint64) *Interp {
 		VarW: map[string]uint8{}, globals: map[*ssa.Global]*Value{},
 		Reached: map[string]bool{}, FnsSeen: map[*ssa.Function]int{},
 		VFS: map[string]*vfile{}, initDone: map[*ssa.Package]bool{}, Notes: map[string]int{},
+		permSite: -1, rangeSites: map[*ssa.Range]int{},
 	}
 }
 
@@ -809,7 +814,9 @@ func (fr *frame) visit(ins ssa.Instruction) cont {
 	case *ssa.MakeMap:
 		fr.set(ins, newMap(ins.Type().Underlying().(*types.Map).Key()))
 	case *ssa.Range:
+		in.curRange = ins
 		fr.set(ins, in.rangeIter(fr.get(ins.X)))
+		in.curRange = nil
 	case *ssa.Next:
 		fr.set(ins, in.next(ins, fr.get(ins.Iter).(*Iter)))
 	case *ssa.FieldAddr:
